@@ -169,9 +169,15 @@ pub fn replay_frames(case: &serde_json::Value) -> crate::props::ReplayResult {
 }
 
 pub fn run(opts: &Opts) -> Vec<Report> {
-    run_frames(opts)
+    let mut out = run_frames(opts);
+    // (b) failed proofs leave the facts untouched: the C09 enumeration with the before/after oracle
+    out.extend(crate::props::c09::run_mode(opts, crate::props::c09::Mode::FailedProofs));
+    out
 }
 
 pub fn replay(case: &serde_json::Value) -> crate::props::ReplayResult {
+    if case["sub"].as_str() == Some("horn") {
+        return crate::props::c09::replay_mode(case, crate::props::c09::Mode::FailedProofs);
+    }
     replay_frames(case)
 }
